@@ -165,3 +165,28 @@ theorem not_admitted (env : Env) (n : Nat) (w w' : World) (q : Query) (raw : Str
   | _ => simp at h
 
 end Liquer
+
+namespace Liquer
+
+/-- C06 at the evaluator, one level: when the predecessor evaluation ends in an error state, the evaluation
+returns it (data cleared, same position and query of the failure), only rewrites progress metadata, and executes
+nothing — the call log is that of the predecessor evaluation -/
+theorem eval_error_stops (env : Env) (n : Nat) (w w1 : World) (p q : Query) (r : Option Seg) (raw : Str)
+    (extra : Extra) (input : Option Val) (uc : Bool) (e : EState)
+    (hmiss : (extra.isEmpty && input.isNone && uc) = false ∨ w.get (q.encode Gen.escapeTable) = none)
+    (hp : q.predecessor = some (p, r)) (hpe : p.segments.isEmpty = false)
+    (h : evalQ env n (w.storeMeta raw (s "evaluating parent")) p (p.encode Gen.escapeTable) .none input uc = (w1, .st e))
+    (he : e.isError = true) :
+    evalQ env (n+1) w q raw extra input uc =
+      (w1.storeMeta raw (s "error"), .st { e with data := .none, query := q.encode Gen.escapeTable }) ∧
+    (w1.storeMeta raw (s "error")).calls = w1.calls := by
+  refine ⟨?_, by simp⟩
+  rw [evalQ_succ]
+  have hm : (if (extra.isEmpty && input.isNone && uc) = true then w.get (q.encode Gen.escapeTable) else none) = none := by
+    rcases hmiss with h1 | h1
+    · simp [h1]
+    · simp [h1]
+  rw [hm]
+  simp [Query.predecessor_not_isRes hp, hp, hpe, h, evalAfter, he]
+
+end Liquer
